@@ -61,6 +61,66 @@ type OpCase struct {
 	Trail  bool     `json:"trail,omitempty"` // drop trailing absent inputs instead of empty names
 	OutNm  []string `json:"out_names,omitempty"`
 	Dyn    bool     `json:"dyn,omitempty"` // model routes: declare every graph-input axis symbolic instead of fixed
+	// op route: input ViewPos (when ViewKind != "") is handed over as a non-contiguous tensor holding the same logical
+	// values: "window" = a column window sliced out of a tensor whose last axis is one longer; "lazyT" = a rank-2
+	// tensor carrying a pending (not yet materialised) transpose
+	ViewKind string `json:"view_kind,omitempty"`
+	ViewPos  int    `json:"view_pos,omitempty"`
+}
+
+// ViewOf builds the non-contiguous presentation of t described by kind (nil when kind does not apply to t).
+func ViewOf(t *ref.T, kind string) tensor.Tensor {
+	r := len(t.Shape)
+	switch kind {
+	case "window":
+		if r == 0 || len(t.V) < 2 || NRows(t) < 2 {
+			return nil
+		}
+		big := append([]int{}, t.Shape...)
+		big[r-1]++
+		bt := ref.New(t.DT, big...)
+		for i := range bt.V {
+			c := ref.Unravel(i, big)
+			if c[r-1] < t.Shape[r-1] {
+				bt.V[i] = t.V[ref.Ravel(c, t.Shape)]
+			} else {
+				bt.V[i] = t.V[0]
+			}
+		}
+		sl := make([]tensor.Slice, r)
+		sl[r-1] = tensor.S(0, t.Shape[r-1])
+		v, err := ToG(bt).Slice(sl...)
+		if err != nil {
+			return nil
+		}
+		return v
+	case "lazyT":
+		if r != 2 || t.Shape[0] < 2 || t.Shape[1] < 2 {
+			return nil
+		}
+		tt := ref.New(t.DT, t.Shape[1], t.Shape[0])
+		for i := 0; i < t.Shape[0]; i++ {
+			for j := 0; j < t.Shape[1]; j++ {
+				tt.V[j*t.Shape[0]+i] = t.V[i*t.Shape[1]+j]
+			}
+		}
+		g := ToG(tt)
+		d, ok := g.(*tensor.Dense)
+		if !ok || d.T() != nil {
+			return nil
+		}
+		return d
+	}
+	return nil
+}
+
+// NRows: number of rows of the last axis.
+func NRows(t *ref.T) int {
+	n := 1
+	for _, e := range t.Shape[:len(t.Shape)-1] {
+		n *= e
+	}
+	return n
 }
 
 func NodeForCase(c *OpCase) *onnx.NodeProto {
@@ -164,6 +224,13 @@ func RunOp(c *OpCase) Result {
 		return RunModelBytes(Marshal(Model(gr, 13)), map[string]*ref.T{"in0": ins[0]}, outNames)
 	case "", "op":
 		g := ToGs(ins)
+		if c.ViewKind != "" && c.ViewPos < len(ins) && ins[c.ViewPos] != nil {
+			v := ViewOf(ins[c.ViewPos], c.ViewKind)
+			if v == nil {
+				return Result{Err: fmt.Errorf("harness: view kind %s does not apply", c.ViewKind), Phase: "harness"}
+			}
+			g[c.ViewPos] = v
+		}
 		if c.Trail {
 			for len(g) > 0 && g[len(g)-1] == nil {
 				g = g[:len(g)-1]
